@@ -462,7 +462,7 @@ def run_faults(ctx):
     if ctx.driver_ok:
         stage_info = {s['name']: s for s in ctx.model('procs.stages', {})}
     if ctx.tier == 'quick':
-        plans = [(rng.randrange(2 ** 31), rng.choice([6, 7]), 3)]
+        plans = [(rng.randrange(2 ** 31), rng.choice([7, 8]), 3)]
     else:
         plans = [(rng.randrange(2 ** 31), 5, 2),
                  (rng.randrange(2 ** 31), 7, 3),
